@@ -49,8 +49,27 @@ func TestVerifC11X(t *testing.T) {
 		}
 		defer func() { c11ConfigHook = nil }()
 	}
+	// optional: C11X_STEER = a c11Steer (on-path rewrite / rogue ServerHello), C11X_SEED_C / C11X_SEED_S = the option
+	// sets of the association that seeds the session stores (with C11X_RESUME=1)
+	var opt c11Opt
+	if v := os.Getenv("C11X_STEER"); v != "" {
+		if err := json.Unmarshal([]byte(v), &opt.Steer); err != nil {
+			t.Fatal(err)
+		}
+		opt.Steer.Applied = 0
+	}
+	if v, w := os.Getenv("C11X_SEED_C"), os.Getenv("C11X_SEED_S"); v != "" && w != "" {
+		var c0, s0 c11Cfg
+		if err := json.Unmarshal([]byte(v), &c0); err != nil {
+			t.Fatal(err)
+		}
+		if err := json.Unmarshal([]byte(w), &s0); err != nil {
+			t.Fatal(err)
+		}
+		opt.SeedC, opt.SeedS = &c0, &s0
+	}
 	var res c11Case
-	vBubble(t, func(t *testing.T) { res = runC11(t, 0, "x", c, s, os.Getenv("C11X_RESUME") == "1", nil) })
+	vBubble(t, func(t *testing.T) { res = runC11Opt(t, 0, "x", c, s, os.Getenv("C11X_RESUME") == "1", nil, opt) })
 	b, _ := json.Marshal(res)
 	fmt.Println(string(b))
 }
